@@ -8,8 +8,6 @@
 package c19
 
 import (
-	"fmt"
-	"time"
 	"runtime"
 	"sort"
 	"sync"
@@ -45,6 +43,19 @@ func parallel(n int, f func(i int)) {
 		}()
 	}
 	wg.Wait()
+}
+
+// viol reports a violation, listing at most a handful of witnesses per signature so that one loud
+// defect cannot crowd a second, different one out of the harness's bounded violation list.
+var violSeen sync.Map
+
+func viol(run *vh.Run, sig, label string, detail any) {
+	c, _ := violSeen.LoadOrStore(sig, new(atomic.Int64))
+	if c.(*atomic.Int64).Add(1) > 4 {
+		run.Count("further-violations-not-listed:"+sig, 1)
+		return
+	}
+	run.Violation(sig, label, detail)
 }
 
 func Run(run *vh.Run) {
@@ -100,10 +111,7 @@ func Run(run *vh.Run) {
 	nCpc := run.N(1500, 150000)
 	nE2E := run.N(48, 1200)
 
-	t0 := time.Now()
-	ph := func(n string) { fmt.Println("PHASE", n, time.Since(t0)); t0 = time.Now() }
 	he.vectors()
-	ph("vectors")
 	var bg sync.WaitGroup
 	bg.Add(1)
 	go func() { // the 2^-16 search is few long cases: runs beside the other phases
@@ -111,20 +119,14 @@ func Run(run *vh.Run) {
 		parallel(nSearch2, func(i int) { he.searchedCase(i, true) })
 	}()
 	parallel(nSearch, func(i int) { he.searchedCase(i, false) })
-	ph("search")
 	parallel(nHD, he.randomCase)
-	ph("hd")
 	parallel(nKeys, ke.checkKey)
-	ph("keys")
 	cpcIdx := newHashIndex()
 	parallel(nCpc, func(i int) { ke.checkCpc(i, cpcIdx) })
-	ph("cpc")
+	de.probes()
 	parallel(nDocs, de.checkDoc)
-	ph("docs")
 	runE2E(run, c, e2eAccts, nE2E)
-	ph("e2e")
 	bg.Wait()
-	ph("search2-wait")
 
 	if run.OnlyCase != "" {
 		return
